@@ -6,6 +6,9 @@
 //!         limits, every produced message decoded again with the crate's prost schema;
 //! kind 3: the real `send_response` and `on_message_received`, end to end: two litep2p nodes
 //!         over TCP loopback, one `BitswapEvent::Response` per message written.
+#[path = "c20_node.rs"]
+mod node;
+
 use crate::util::*;
 use futures::StreamExt;
 use litep2p::{
@@ -33,7 +36,7 @@ const SUPPORTED: [u64; 12] =
 const UNSUPPORTED: [u64; 8] = [0x00, 0x11, 0x1e, 0xb250, 0xb260, 0x1053, 0x0fff_ffff, u64::MAX];
 
 /// Deterministic payload bytes of (id, length).
-fn payload(did: u64, dlen: u64) -> Vec<u8> {
+pub(crate) fn payload(did: u64, dlen: u64) -> Vec<u8> {
     let mut x = did.wrapping_mul(0x9E37_79B9_7F4A_7C15) ^ 0x5851_F42D_4C95_7F2D;
     let mut v = Vec::with_capacity(dlen as usize);
     while (v.len() as u64) < dlen {
@@ -48,7 +51,7 @@ fn payload(did: u64, dlen: u64) -> Vec<u8> {
 }
 
 /// The harness's own LEB128 writer (not the crate's).
-fn put_varint(mut n: u64, out: &mut Vec<u64>) {
+pub(crate) fn put_varint(mut n: u64, out: &mut Vec<u64>) {
     loop {
         let b = n & 0x7f;
         n >>= 7;
@@ -62,7 +65,7 @@ fn put_varint(mut n: u64, out: &mut Vec<u64>) {
 
 /// Lenient LEB128 reader: value (wrapping) and rest; used only to decide which oracle entries
 /// a case needs.
-fn get_varint(b: &[u64]) -> Option<(u64, &[u64])> {
+pub(crate) fn get_varint(b: &[u64]) -> Option<(u64, &[u64])> {
     let mut n: u64 = 0;
     for (i, x) in b.iter().enumerate() {
         if i < 10 {
@@ -86,7 +89,7 @@ fn third_varint(prefix: &[u64]) -> Option<u64> {
 }
 
 /// 64-bit values travel as two 32-bit limbs (the wire carries numbers below 2^62).
-fn limbs(x: u64) -> [u64; 2] {
+pub(crate) fn limbs(x: u64) -> [u64; 2] {
     [x >> 32, x & 0xffff_ffff]
 }
 
@@ -109,6 +112,14 @@ fn gen_recv(rng: &mut Rng, thorough: bool) -> Vec<u64> {
     let n = rng.range(1, if thorough { 12 } else { 6 });
     let mut c = vec![1, n];
     for _ in 0..n {
+        gen_rblock(rng, thorough, &mut c);
+    }
+    c
+}
+
+/// One received payload entry: `<prefix bytes> did dlen <oracle entries>` appended to `c`.
+pub(crate) fn gen_rblock(rng: &mut Rng, thorough: bool, c: &mut Vec<u64>) {
+    {
         let version = rng.pick(&[1u64, 1, 1, 1, 1, 1, 1, 1, 1, 1, 0, 0, 0, 2, 3, 127, 128, u64::MAX]);
         let code = if rng.chance(85) { rng.pick(&SUPPORTED) } else { rng.pick(&UNSUPPORTED) };
         let codec = if version == 0 && rng.chance(85) {
@@ -177,10 +188,9 @@ fn gen_recv(rng: &mut Rng, thorough: bool) -> Vec<u64> {
         }
         c.push(codes.len() as u64);
         for k in codes {
-            oracle_entry(k, &data, &mut c);
+            oracle_entry(k, &data, c);
         }
     }
-    c
 }
 
 fn run_recv(c: &[u64]) -> Option<Vec<u64>> {
@@ -610,6 +620,8 @@ pub fn main(args: &Args) {
             Some(1) => run_recv(c),
             Some(2) => run_send(c),
             Some(3) => run_e2e(net, c),
+            Some(4) => node::run_node(c),
+            Some(5) => node::run_pres(c),
             _ => None,
         }));
         match r {
@@ -636,9 +648,11 @@ pub fn main(args: &Args) {
     for _ in 0..ncases {
         let mut r = rng.fork();
         let c = match r.below(100) {
-            0..=49 => gen_recv(&mut r, thorough),
-            50..=95 => gen_send(&mut r, thorough),
-            _ => gen_e2e(&mut r, thorough),
+            0..=34 => gen_recv(&mut r, thorough),
+            35..=64 => gen_send(&mut r, thorough),
+            65..=68 => gen_e2e(&mut r, thorough),
+            69..=91 => node::gen_node(&mut r, thorough),
+            _ => node::gen_pres(&mut r, thorough),
         };
         let t = run(&c, &mut net);
         out.emit(&c, &t);
